@@ -56,7 +56,7 @@ def genGs2 (seed n : Nat) : List String :=
     let port := 2302 + k % 3
     let retries := k % 3
     let sc := Spec.script y st
-    let line := s!"h{seed}_{k} gs2 {port} {retries} {gsShowScript sc}"
+    let line := s!"gb{seed}_{k} gs2 {port} {retries} {gsShowScript sc}"
     let wf := if Spec.wf y st then "" else " NOTWF"
     line ++ " ## WANT " ++ showRes showGs2Response (.ok (Spec.expected st)) ++ wf
       ++ " ## SENT " ++ String.intercalate "," (Spec.requests.map hexOf)
